@@ -370,6 +370,41 @@ func properties() map[string]*PropertyDef {
 		LevelNote:   "the bounded part is labelled bounded in the evidence and is not counted among the discharged obligations",
 		Technique:   "contract-based deductive verification (govc) for SplitTrimmed; bounded exhaustive differential test on the real code for ContainsFold (stand-in)",
 	})
+	ps = append(ps, &PropertyDef{
+		ID:       "C14",
+		Patterns: []string{"./timeutil", "./netutil", "./netutil/urlutil"},
+		Funcs: []string{"timeutil.(Duration).String", "timeutil.(Duration).MarshalText", "timeutil.(*Duration).UnmarshalText",
+			"netutil.JoinHostPort", "netutil.SplitHostPort", "netutil.ParseHostPort", "netutil.(HostPort).String", "netutil.(HostPort).MarshalText", "netutil.(*HostPort).UnmarshalText",
+			"netutil.(*Prefix).UnmarshalText",
+			"netutil/urlutil.Parse", "netutil/urlutil.(*URL).MarshalText", "netutil/urlutil.(*URL).UnmarshalText", "netutil/urlutil.(*URL).UnmarshalJSON"},
+		Lemmas: []string{"canonicalTextNonEmpty"},
+		Kinds:  map[string]bool{"ensures": true, "invariant": true, "requires": true, "frame": true, "lemma": true, "nil": true, "bounds": true},
+		NeedsClauses: map[string][]string{
+			"timeutil.(Duration).String":               {"as_is", "drops_zero_seconds", "drops_zero_minutes_and_seconds", "parses_back"},
+			"timeutil.(Duration).MarshalText":          {"text_is_string"},
+			"timeutil.(*Duration).UnmarshalText":       {"accepts", "parsed"},
+			"netutil.JoinHostPort":                     {"splits_back"},
+			"netutil.SplitHostPort":                    {"accepts", "parts"},
+			"netutil.ParseHostPort":                    {"accepts", "parts"},
+			"netutil.(HostPort).String":                {"parses_back"},
+			"netutil.(HostPort).MarshalText":           {"parses_back"},
+			"netutil.(*HostPort).UnmarshalText":        {"accepts", "parts", "error_keeps"},
+			"netutil.(*Prefix).UnmarshalText":          {"with_slash", "bare_address", "error_keeps"},
+			"netutil/urlutil.Parse":                    {"accepts", "parsed", "reparsable"},
+			"netutil/urlutil.(*URL).MarshalText":       {"text_is_string"},
+			"netutil/urlutil.(*URL).UnmarshalText":     {"accepts", "parsed", "reparsable"},
+			"netutil/urlutil.(*URL).UnmarshalJSON":     {"null_keeps", "decodes_string"},
+		},
+		Assumptions: []string{
+			"Proved relative to assumed contracts of the standard library, stated over content identities of texts: (time) Duration.String's text ends in m0s / h0m0s for non-zero whole minutes / hours and ParseDuration reads the canonical text back, also without those zero units; (net) SplitHostPort(JoinHostPort(h, p)) == (h, p) for bracket-free h; (strconv) ParseUint(FormatUint(i, 10), 10, 16) == i iff i < 65536; (net/url) re-parsing String() of a parsed URL succeeds and is idempotent; (encoding/json) decoding the encoding of a text gives the text; netip.ParsePrefix / ParseAddr as uninterpreted functions",
+			"what the proof contributes is the glue: which tail Duration.String cuts under which arithmetic condition (negative values included); that each Marshal/String result is in the form the matching Unmarshal/Parse accepts and yields the same value; that Prefix.UnmarshalText delegates on '/' and builds the full-length prefix otherwise; that UnmarshalJSON hands the decoded (not the raw) string to the text parser",
+			"KNOWN FINDING (open): the URL round trips need the canonical text to be non-empty; Parse(\"#\") and Parse(\"//\") are accepted with an empty String()",
+		},
+		Explanation: "each encoder carries a postcondition in the vocabulary of the decoder's acceptance predicate, so the round trips are two-step consequences of the contracts",
+		LevelText:   "proof of the glue code relative to assumed contracts of time, net, strconv, net/url and encoding/json; one open known finding",
+		LevelNote:   "see assumptions; trusted: go/ssa lowering, govc encoding, solvers",
+		Technique:   "contract-based deductive verification (govc): postconditions over uninterpreted acceptance/value functions of the standard-library parsers, WP over go/ssa, z3/cvc5",
+	})
 	out := map[string]*PropertyDef{}
 	for _, p := range ps {
 		out[p.ID] = p
